@@ -111,9 +111,12 @@ VARIABLES tid, F, inherit, kindA, vdoc, order,    \* configuration (fixed in Ini
           ps,          \* obj.parsed_summary   : "none" | "ok" | "brokensum" (get_summary gave up) | "brokenstan" (set by format_summary_fallback)
           perr,        \* System.parse_errors['docstring'] restricted to A, B, V
           nrep,        \* number of messages reported against each object
+          lk,          \* obj.docstring_linker between two calls: "home" (reports against obj, links relative to its own page) or
+                       \* "away" (left in a switched context).  format_summary renders under switch_context(None) (linker.py:94-110)
+                       \* and leaves it when it returns, whatever happened inside: no step of this machine changes lk
           pz,          \* obj.parsed_docstring holds a half-built cached document (a to_node call on it has failed)
           res          \* results so far: sequence of [o, op, r]
-vars == <<tid, F, inherit, kindA, vdoc, order, i, pd, ps, perr, nrep, pz, res>>
+vars == <<tid, F, inherit, kindA, vdoc, order, i, pd, ps, perr, nrep, pz, lk, res>>
 
 \* whose faults the text rendered for o has  /  the "source": whom the pipeline reports against and passes to the fallbacks
 Text(o) == IF o = "B" /\ inherit THEN "A" ELSE o
@@ -217,8 +220,10 @@ Start == IF kindA = "cls" THEN [ParseDocstring(Blank, "A") EXCEPT !.pd["V"] = IF
 Init == /\ (InitEnum \/ InitFile)
         /\ i = 1 /\ res = <<>>
         /\ pd = Start.pd /\ ps = Start.ps /\ perr = Start.perr /\ nrep = Start.nrep /\ pz = Start.pz
+        /\ lk = [o \in Objs |-> "home"]
 
-Apply(o, op, out) == /\ pd' = out.s.pd /\ ps' = out.s.ps /\ perr' = out.s.perr /\ nrep' = out.s.nrep /\ pz' = out.s.pz
+Apply(o, op, out) == /\ lk' = lk
+                     /\ pd' = out.s.pd /\ ps' = out.s.ps /\ perr' = out.s.perr /\ nrep' = out.s.nrep /\ pz' = out.s.pz
                      /\ res' = Append(res, [o |-> o, op |-> op, r |-> out.r])
                      /\ i' = i + 1
 Call == /\ Source = "enum" /\ i <= Len(order)
@@ -233,6 +238,7 @@ TraceStep == /\ Source = "file" /\ i <= Len(Traces[tid].ev)
                   /\ out.s.perr = {o \in Objs : Ev.st.perr[o]}
                   /\ out.s.nrep = [o \in Objs |-> Ev.st.nrep[o]]
                   /\ out.s.pz = [o \in Objs |-> Ev.st.pz[o]]
+                  /\ lk = [o \in Objs |-> Ev.st.lk[o]]
                   /\ Apply(Ev.o, Ev.op, out)
 Next == (Call \/ TraceStep) /\ UNCHANGED <<tid, F, inherit, kindA, vdoc, order>>
 Spec == Init /\ [][Next]_vars
@@ -257,6 +263,9 @@ ReportedWhenRenderFails == \A x \in Results : (x.op = "docstring" /\ (F[Text(x.o
                                                    => (Src(x.o) \in perr /\ nrep[Src(x.o)] >= 1)
 \* one report per object: whatever is called, in whatever order, however often the text is parsed
 OneReport == \A o \in Objs : nrep[o] \in {0, 1, F[o].n} /\ (nrep[o] > 0 <=> o \in perr)
+\* the linker of every object is back home after every call: what is rendered next - the object itself, or the siblings
+\* that share it as their source - reports its unresolvable links and links relative to its own page
+LinkerRestored == \A o \in Objs : lk[o] = "home"
 \* a summary is never a failure to produce one
 SummaryAlways == \A x \in Results : x.op = "summary" => x.r \in {"summary", "brokensum", "broken", "undoc"}
 \* frame: working on one object changes nothing of another one, with one exception that follows from where the TEXT lives:
@@ -284,7 +293,7 @@ FallbackCompleteOrKF == FallbackComplete \/ (KF_PoisonedCache /\ \A x \in Result
 \* ------------------------------------------------------------------ emission / acceptance
 DoneEnum == Source = "enum" /\ i = Len(order) + 1
 EmitTerminal == DoneEnum => PrintT(ToJson([F |-> F, inherit |-> inherit, kindA |-> kindA, vdoc |-> vdoc, res |-> res,
-                                           final |-> [pd |-> pd, ps |-> ps, nrep |-> nrep, pz |-> pz, perr |-> [o \in Objs |-> o \in perr]]]))
+                                           final |-> [pd |-> pd, ps |-> ps, nrep |-> nrep, pz |-> pz, lk |-> lk, perr |-> [o \in Objs |-> o \in perr]]]))
 Accept == (Source = "file" /\ i = Len(Traces[tid].ev) + 1) => TLCSet(1, TLCGet(1) \cup {tid})
 Post == IF Source = "file" THEN PrintT(ToJson([accepted |-> TLCGet(1), total |-> Len(Traces)])) ELSE TRUE
 =============================================================================
